@@ -107,10 +107,10 @@ def apply (img : Image A) : Commit A → Image A
   | .connect n none => { img with best := n, journal := n :: img.journal }
   | .connect n (some u) => { img with best := n, journal := n :: img.journal, utxo := u, marker := some n }
   | .connectPrune n ps none =>
-    { img with best := n, journal := (n :: img.journal).filter (· ∉ ps), stored := img.stored.filter (· ∉ ps),
+    { img with best := n, journal := n :: img.journal.filter (· ∉ ps), stored := img.stored.filter (· ∉ ps),
                files := img.files.filter (fun f => f.2.all (· ∉ ps)) }
   | .connectPrune n ps (some u) =>
-    { img with best := n, journal := (n :: img.journal).filter (· ∉ ps), stored := img.stored.filter (· ∉ ps),
+    { img with best := n, journal := n :: img.journal.filter (· ∉ ps), stored := img.stored.filter (· ∉ ps),
                files := img.files.filter (fun f => f.2.all (· ∉ ps)), utxo := u, marker := some n }
   | .disconnect n u => { img with best := n.tail, journal := img.journal.filter (· ≠ n), utxo := u,
                                   marker := some n.tail }
@@ -266,6 +266,8 @@ def discAll (v : A.U) : Chain → Nat → A.U
 
 inductive Res where
   | dup | orphan | rej | okMain | okSide
+  /-- a non-rule error (block data missing, assertion) -/
+  | err
 deriving DecidableEq, Repr
 
 /-- `getReorganizeNodes` + `reorganizeChain` + final index flush towards the stored chain `n`. -/
@@ -279,16 +281,16 @@ def reorg (cfg : Cfg) (nd : Node A) (n : Chain) : Node A × Res :=
   else
     let nDetach := nd.tip.length - fork.length
     let detach := ((suffixes nd.tip).take nDetach)
-    if detach.any (fun d => d ∉ nd.img.stored || d ∉ nd.img.journal) then (flushDirty nd, .rej)
+    if detach.any (fun d => d ∉ nd.img.stored || d ∉ nd.img.journal) then (flushDirty nd, .err)
     else
       let (nd, ok) := verifyAttach nd (discAll nd.utxo nd.tip nDetach) fork bs
-      if !ok then (flushDirty nd, .rej)
+      if !ok then (flushDirty nd, if as_.any (fun a => a ∉ nd.img.stored) then .err else .rej)
       else
         match disconnectN nDetach nd with
-        | (nd, false) => (flushDirty nd, .rej)
+        | (nd, false) => (flushDirty nd, .err)
         | (nd, true) =>
           match connectAll cfg as_ nd with
-          | (nd, false) => (flushDirty nd, .rej)
+          | (nd, false) => (flushDirty nd, .err)
           | (nd, true) => (flushDirty nd, .okMain)
 
 /-- `ProcessBlock` of block `b` whose parent is `p`. -/
@@ -306,7 +308,7 @@ def deliver (cfg : Cfg) (nd : Node A) (b : Blk) (p : Chain) : Node A × Res :=
         let nd := flushDirty (setStatus nd n { valid := true })
         match connectBlock cfg { nd with utxo := A.conn b nd.utxo } n with
         | (nd, true) => (nd, .okMain)
-        | (nd, false) => (flushDirty nd, .rej)
+        | (nd, false) => (flushDirty nd, .err)
       else
         (flushDirty (setStatus nd n { failed := true }), .rej)
     else if n.length ≤ nd.tip.length then (nd, .okSide)
